@@ -1,99 +1,295 @@
 """Per-property wording for MANIFEST.json."""
 NOT_CLAIMED_REASON = {}
-TEXT = {
- "C11": {
-  "technique": "Lean 4 proof by mutual structural induction over the term model (all terms, cutoffs, amounts); model tied to de_bruijn.rs by exhaustive small-scope + random differential correspondence; algebraic laws and a named-substitution oracle searched on the implementation",
-  "level": "**The property's first clause is a theorem: on a calculus of named terms (no shadowing, as gram demands) opening the de Bruijn translation is the translation of capture-avoiding substitution (C11_open_is_named_substitution: toDB Γ (b[u/x]) = open (toDB (x::Γ) b) 0 (toDB Γ u) 0, with the weakest freshness hypotheses) and shifting is weakening by a fresh binder at any depth (C11_shift_is_named_weakening).** The ten laws of C11 (shift by zero, additivity, unsigned = signed, down undoes up, failure exactly on unbinding, opening a non-occurring variable = lowering, predicted free variables of shift and open, open-after-lift, list/predicate agreement) are theorems for every term, cutoff, amount and group length, checked by Lean's kernel. They speak about the model; the model is tied to the Rust by running signed_shift/open/free_variables and the model on all hole-free terms up to a size bound with every operator, and on random larger terms. Also proved: commutation of lifting with lifting and with opening, and the substitution lemma (open/open) in its correct form — two first formulations were refuted by the proof attempt and are kept next to their refutations.",
-  "note": "Trusted: Lean kernel, axioms {propext, Quot.sound, Classical.choice}, the correspondence harness and driver. Modelled, not verified: de_bruijn.rs, term.rs::free_variables.",
- },
- "C02": {
-  "technique": "Lean 4 proof that the model evaluator is sound, complete and deterministic w.r.t. an inductive CBV step relation (fun_induction / rule induction), plus arithmetic/comparison specifications; model tied to evaluator.rs by comparing every intermediate term of every run; reference big-step oracle on the implementation",
-  "level": "step_sound, step_complete, determinism, irreducibility of values, evaluator-finds-the-prescribed-result, exact arithmetic, truncating division, comparison and conditional laws, evaluation order of applications and of binary operators, first-definition-first for groups, fuel-independence of the result and the fixed-point law of a recursive definition are kernel-checked theorems about the model for all terms and all integers. The tie to evaluator.rs is differential: all closed arithmetic/conditional terms to depth 2 over boundary operands (0, ±1, ±2^64, ±10^40 ...), samples at depth 3, recursive and mutually recursive groups, random raw terms, each compared step by step.",
-  "note": "Trusted: Lean kernel, the three standard axioms, harness and driver. Modelled, not verified: evaluator.rs, de_bruijn.rs. Not modelled: the 16 MiB stack.",
- },
- "C09": {
-  "technique": "Lean 4 proof over a tokenizer model parametric in the Unicode classifier (invariants of the scanning loop by induction on fuel; keyword table regenerated from source and decided); tied to tokenizer.rs by exhaustive short strings over a class-representative alphabet + random Unicode texts; the partition predicate searched on the implementation",
-  "level": "Kernel-checked for every text and every classifier: failures list at least one symbol, the keyword table is a bijection of whole words, literal values are positional in unbounded Nat; ranges are ordered, disjoint, non-empty and inside the text; the tokenizer is total (its panic arm is dead); a word is a keyword iff it equals the keyword; every token's range contains exactly its lexeme; **maximal munch** (an identifier or number token is never followed directly by a character that would continue it); **everything between tokens is blank or comment** (every text position is inside a token, a blank, a comment or a line break that the filter dropped); **no token starts inside a comment** (for a classifier under which `#` is not a word character; the unrestricted first formulation is refuted and kept next to its refutation); **the reported errors are exactly the unexpected symbols**, in order. The model is tied to the code by op `tok` (token kinds, payloads, byte ranges, error ranges). The full partition predicate of C09 is evaluated on the implementation's output for every generated text.",
-  "note": "Trusted: Lean kernel, standard axioms, harness/driver, the extractor (extract/extract.py). External, assumed: Rust std Unicode tables, unicode-segmentation, num-bigint decimal parsing (exercised by correspondence).",
- },
- "C10": {
-  "technique": "Lean 4 proof of local scanner laws (comment = its line ending, blanks skipped, line break yields a terminator iff the regenerated can-end table says so) and `decide` over the two line-break tables regenerated from tokenizer.rs; the full render/tokenize law searched on the implementation over random token sequences and layouts; at parser level (line break interchangeable with `;`) the model parser, which does not look at the kind of a terminator, is compared with the implementation on programs whose separators are respelled, and the respellings must fare alike",
-  "level": "Kernel-checked: a comment is skipped up to and not including its line feed (also at end of file), table obligations over all 29 token shapes (operators/opening brackets cannot end, binary operators/closing brackets cannot start, `;` does both, line-break terminator never ends), payload independence; in the scanner a comment behaves exactly like its line ending, blanks are skipped without effect, a line break yields a terminator iff the can-end table says so, never two in a row, none leading or trailing. The unbounded render/tokenize law is pending; it is evaluated on the implementation for random token lists with every gap filled by spaces, tabs, CR, NBSP, comments (empty, multi-byte, at EOF) and line breaks.",
-  "note": "Trusted: as C09. The tables are regenerated from the source on every run, so a moved variant re-decides the obligations.",
- },
- "C01": {
-  "technique": "Lean 4 proof of the stuck-term classification (sound and complete w.r.t. the model evaluator) and kernel-evaluated negation witnesses on the model type checker; checker and evaluator models tied to type_checker.rs/unifier.rs/normalizer.rs/evaluator.rs by differential correspondence on every small sentence of grammar.y and on type-directed generated programs; progress searched per program on the implementation",
-  "level": "PARTIAL. The full progress statement is false of the code (known findings KF-order, KF-holecopy, KF-barehole; one more defect, nested groups not order-checked, was repaired). Proved for all terms: a term that neither steps nor is a value is stuck for exactly one classified reason, values are never stuck; proved by kernel evaluation: the model checker accepts the KF-order and KF-barehole witnesses and their evaluation is stuck. Also proved: **one-step progress for the independent checker's type system** — a hole-free term accepted by inferX (in any context) that neither steps nor is a value is stuck at a variable in evaluation position or at a division by zero, never for a kind reason. **Proved with the confluence development: progress and canonical forms for the declarative rules** (C01_declarative_progress: a closed term well typed under Typing.lean is a value, steps, or is stuck at a not-yet-available definition or a division by zero) and **type soundness of the checker model on the group-free fragment** (C01_checker_sound_run_nolet: a fully annotated program without definition groups that the model of gram's checker accepts is, after any number of evaluation steps, a value or can step or divides by zero -- never stuck for a kind reason, not even at a variable). Subject reduction w.r.t. the declarative rules is *refuted* for multi-definition groups (C04_preservation_refuted: an intermediate term of a run that is perfectly fine has no type) and proved with the side condition that names the problem (C04_preservation_fixed), so the statement for programs with groups (C01_checker_sound_run_stmt) stays open; it is decided per program: every E-small sentence (<= 5 tokens quick, <= 6 thorough) and every G-prog program accepted by the real front end is evaluated by the real evaluator and a stuck final term other than a division by zero is a violation unless it matches a recorded finding's signature.",
-  "note": "Trusted: Lean kernel, standard axioms, harness/driver. Modelled, not verified: type_checker.rs, unifier.rs, normalizer.rs, evaluator.rs, de_bruijn.rs (store layer). Hook H2 (feature verif-hooks) attributes hits to KF-holecopy.",
- },
- "C05": {
-  "technique": "Lean 4 proof that the checker model never wrongly rejects a fully annotated program the independent checker accepts (confluence of conversion on erased terms, transfer of positive conversion verdicts between convertible forms, the group rule), a refutation of unconditional completeness with a witness replayed on the real binary; Lean 4 proof (induction on fuel over the monadic checker model) that elaboration returns the input term unchanged, that the hole store only grows and that diagnostics are never dropped; kernel-evaluated witness of the repaired group rule; completeness searched with a type-directed program generator that knows each program's type",
-  "level": "PARTIAL: the full statement is false of the code on programs whose types have no weak head normal form (known finding KF-divergent-type; kernel-checked witness C05_loop_witness: the independent checker accepts, the model of gram's checker runs out of fuel at every fuel, and the real binary overflows its stack). **Proved for the model (C05_checker_no_wrong_rejection, via a 4000-line confluence proof for conversion): for a closed, fully annotated program without implicit binders that the independent checker accepts, gram's checker, at every fuel, either runs out of fuel or accepts it with no diagnostic and a hole-free type convertible with the independent checker's; so a fully annotated well-typed program is never wrongly rejected, it can only fail to terminate**; C05_checker_complete_holefree_fixed is the fuel-existential form. (Implicit functions cannot be applied at all in gram -- `({a : type} => a) int` is rejected; the language gives them no elimination form, so they are excluded by hypothesis, C05_implicit_witness.) Also proved: elaboration identity (nothing rewritten, reordered, duplicated or dropped), store/diagnostic monotonicity, the repaired group-type rule on the former stack-overflow witness. Acceptance of every fully annotated well-typed program is not proved; it is decided per program: G-prog generates fully annotated programs (polymorphic, higher-order, dependent, recursive groups, type aliases, type-level computation) together with their expected type, and the real checker must accept each with a type that unifies with the expected one; the elaborated term must be pointer-structurally the parsed term.",
-  "note": "Trusted: Lean kernel, standard axioms, harness/driver, the generator's own typing discipline (prog.rs). Modelled, not verified: type_checker.rs, unifier.rs, normalizer.rs, de_bruijn.rs.",
- },
- "C12": {
-  "technique": "Lean 4 proof of store monotonicity, unreachability of the let-panic arm and occurs-check guarding for the unifier model; model tied to unifier.rs/normalizer.rs/equality.rs by ops comparing verdict, store afterwards and context afterwards; scope/acyclicity/re-unification oracles on the implementation over hole-punched terms",
-  "level": "PARTIAL for terms on which the two recorded hole defects strike; otherwise PROVED for the model. **Soundness of unification (C12_unify_sound_fixed, 2100 lines): if `unify` answers true, allocated no cell (no hole-copy event, hook H2) and every hole sits at least as deep as its shift says (no event of hook H4), then the two sides zonked with the final store are convertible under the declarative rules.** The unrestricted statement is refuted three ways, two of them real defects of the Rust unifier (kernel-evaluated witnesses; the gram programs are in corpus/d19*.g), the third a flaw of my first formulation (the algorithmic check can diverge where the rules hold). Also proved: filled cells never change, whnf never returns a group so the panic arm is dead, every assignment is guarded by the occurs check; **every recorded solution is in scope of its hole** (the solution is the other side lowered by the hole's shift, and lifting it back gives the other side exactly: sshift c (-k) t = some r -> ushift c k r = t); kernel-evaluated occurs-check and scope-escape configurations. Searched on the implementation: G-unify (holes punched at arbitrary positions and binder depths, random definitions contexts with offsets), each success re-unifies, every solution is in scope of its hole and acyclic.",
-  "note": "Trusted: Lean kernel, standard axioms, harness/driver. Hook H2 attributes failures caused by hole copies (KF-holecopy).",
- },
- "C18": {
-  "technique": "Lean 4 proof (Hoare-style triples over the state monad, induction on fuel) that normalisation, unification and type checking leave both contexts exactly as they were on every path; contexts are state in the model and are pushed/popped where the Rust pushes/pops; the implementation's context vectors are fingerprinted before and after every call",
-  "level": "PARTIAL on the 'matches the closed program' clause for gram's own checker with holes; for the independent checker it is proved: **the verdict does not depend on how a context entry is written (C18_rebase_invariant: re-basing entry i from (T, o) to (T lifted by k, o+k) leaves inferX, whnfX and convX unchanged for every term and fuel, errors included), checking a closed one-definition group is checking its parts under the extended contexts (C18_let_wrap), and a lambda likewise (C18_lam_wrap)**. Proved for all terms, stores and contexts: whnf/unify/infer restore typing and definitions contexts, accepted or rejected. On the implementation every type_check / unify / normalize call of the unify, programs and pipeline suites is bracketed by context fingerprints.",
-  "note": "Trusted: Lean kernel, standard axioms, harness/driver.",
- },
- "C13": {
-  "technique": "Lean 4 proof that sorting makes the visiting order invariant under any permutation of a hash container's elements, plus `decide` that every hash-iteration site extracted from the sources is a sorted one; repeated launches of the real binary with byte comparison",
-  "level": "Proved: order-independence of the one hash iteration of the code (after the repair of D11), and that the regenerated list of hash-iteration sites contains only sorted ones. Runtime nondeterminism cannot be exhibited by a Lean model; it is searched by launching the real binary 8 (quick) / 50 (thorough) times per file and mode on the corpus and on generated files with several diagnostics.",
-  "note": "Trusted: Lean kernel, standard axioms, the extractor's pattern for hash iteration, OS process semantics.",
- },
- "C14": {
-  "technique": "Lean 4 proofs that the panic arms of the tokenizer and the unifier are dead and that failure lists are non-empty, `decide` that every panic site extracted from the sources is a classified known one, model of the CLI result mapping; in-process stages under catch_unwind and the real binary on byte strings, token soups and corrupted corpus files",
-  "level": "PARTIAL by nature (stack exhaustion is a recorded finding; a second finding, KF-holedepth, is a panic of the type checker found by the attempt to prove its absence). Proved: **the type checker model never panics on a hole-free program** (C14_infer_no_panic_fixed), `unsigned_shift` never panics, a panic of the checker can only be one of the four context lookups and on a well-scoped term only the definitions-context indexing of normalize_weak_head (C14_infer_one_live_site), with two kernel-evaluated witnesses that this one is live (the Rust binary panics on both); tokenizer total; unifier let-panic dead; **the model parser terminates** (fuel 36(n+1)+1 always suffices: no left recursion, by a rank/position measure over the 36 functions); **the model front end never panics** (a tree without recorded errors contains no ParseError node — the confident-flag invariant —, so re-association and resolution never meet one; the definition-order check neither panics nor runs out of fuel) and rejects only with a non-empty diagnostic list; CLI contract of the result mapping; panic-site list covered. Searched: every in-process stage call of the lexer/parser/pipeline suites runs under catch_unwind; the real binary is run on all byte strings up to length 2 (sample of length 3 in quick, all in thorough) over a 40-element alphabet including invalid UTF-8, on token soups and on truncated/corrupted corpus files, and must respect the exit/stdout/stderr contract.",
-  "note": "Trusted: Lean kernel, standard axioms, extractor, harness.",
- },
- "C17": {
-  "technique": "`decide` over the shape of the 36 packrat functions and fingerprints of the caching macros regenerated from parser.rs; memo-table model whose per-nonterminal hit/miss counters are compared with the implementation's (hook H1); wall-clock scaling measured on the real code for 25 input families",
-  "level": "PARTIAL by nature (a theorem cannot bound wall-clock time). Decided by the kernel on every run: every parse function starts with cache_check! under its own nonterminal and leaves only through the caching macros; one function per nonterminal; macros and cache type unchanged. Correspondence: the model parser (explicit memo table) reproduces the implementation's per-nonterminal cache hits and misses exactly on every `parsestats` op. Proved for the model: a miss runs the body once and inserts its key, a hit runs nothing, the cache only grows, **total misses <= 36(n+1)** and **total calls (hits + misses) <= 361(n+1)** for every token sequence (no body calls a parse function in a loop; the largest body makes 9 calls), together with termination: the packrat phase does linear work; the same bound is checked on the implementation's counters for every family. Measured: tokenize+parse time for nested/unclosed/mis-closed parentheses, operator/application/definition/conditional/lambda/arrow/negation/comparison chains, long-and-nested inputs, shared dependency graphs, at n = 250..2000 (4000 thorough); a local growth exponent above 4.5, a run above 30 s or a sweep that does not finish is a violation with family and n as replay.",
-  "note": "Trusted: Lean kernel, extractor, harness timing. Not modelled: the machine.",
- },
- "C03": {
-  "technique": "independent explicit checker inferX written in Lean (normalise-and-compare conversion, no unification variables), run by the compiled driver on the zonked elaboration of every program the real checker accepts (translation validation); Lean proofs about inferX (scoping, constants, rejection of ill-kinded arithmetic) and a kernel-evaluated negation witness; model of gram's checker tied to the code by op `infer`",
-  "level": "PARTIAL for programs with holes, PROVED for the model on fully annotated programs. The full statement is false of the code (known findings KF-holecopy and KF-holedepth; one more defect, untyped annotations, was repaired). **Proved (C03_checker_sound_holefree): if the model of gram's checker accepts a closed hole-free program without error, the zonked elaboration has the zonked reported type under the declarative rules of Typing.lean** (1900 lines; the three shapes of `unify` calls the checker makes, the group rule's unfolded type convertible with the declarative one); the elaboration of a hole-free program is the program. Also proved: the independent checker only accepts well-scoped hole-free terms, types constants exactly, rejects arithmetic on booleans; by kernel evaluation the model of gram's checker accepts `((f : int -> _) => f 1 + 1) ((x : int) => true)` while the independent checker rejects its elaboration. Decided per program: every E-small sentence and every G-prog program (incl. their single-point ill-typed perturbations) accepted by the real checker must be accepted by inferX at the reported type. **The independent checker is proved sound for the declarative typing rules** (`Typing.lean`: head reduction, convertibility as the least congruence-equivalence containing it, a pure type system with type:type, groups and a conversion rule): `whnfX` only rewrites to convertible terms, a positive `convX` on hole-free terms is a derivation of convertibility, `inferX ... = ok T` implies `HasType Γ Δ t T`, `oracleAccepts e ty = ok true` implies `HasType [] [] e ty`; and its verdicts do not depend on the fuel (fuel monotonicity of whnfX/convX/inferX/oracleAccepts).",
-  "note": "Trusted: Lean kernel, standard axioms, harness/driver, the declarative rules (Typing.lean, 130 lines; the oracle Oracle.lean is proved sound for them on hole-free terms). Hook H2 attributes rejections caused by hole copies.",
- },
- "C04": {
-  "technique": "Lean proofs of subject reduction (group-free fragment; refuted in general, with the corrected statement), of canonical forms from consistency of conversion (confluence), and of `the value inhabits the reported type` for the checker model on the group-free fragment; Lean proofs of the shape of the type of a value and canonical forms for the independent checker; the value of every terminating accepted program typed by inferX and compared with the reported type (translation validation), plus a direct shape test on the implementation",
-  "level": "PARTIAL: proved for the model on the group-free fragment, decided per program beyond it. **Proved: C04_value_inhabits_type_nolet -- if the model of gram's checker accepts a closed fully annotated group-free program at (zonked) type T and running it reaches a value v, then v has type T under the declarative rules, and if T is convertible with int (bool) then v is an integer literal (true/false)**; subject reduction for the group-free fragment in arbitrary contexts (C04_preservation_nolet) and, with an explicit side condition on group unfolding, in general (C04_preservation_fixed; the unconditional statement is refuted by a three-line program whose intermediate term is untypable, C04_preservation_refuted -- a limit of the declarative specification, not a defect of gram: the program runs fine); canonical forms under the declarative rules from consistency of conversion (C04_canonical_forms_declarative). Also proved: the type inferX assigns to a value is determined by the value's shape; canonical forms (a value of type int is a literal, of type bool is true/false, of a function type is a function); values are normal. Decided per program: value and reported type of every terminating accepted E-small / G-prog program go to the independent checker; on the implementation the weak-head normal form of the reported type must match the value's kind.",
-  "note": "Trusted: as C03.",
- },
- "C06": {
-  "technique": "Lean proofs that syntactic equality is an equivalence, conversion is reflexive at any fuel, normalizer and evaluator share the delta rules, values are whnf fixed points, the store-layer syntactically_equal coincides with the pure one on hole-free terms, unify(t,t) succeeds; agreement normalizer/evaluator, unify(t, reduct), symmetry searched per program; the two normalizers (store layer = model of normalize_weak_head, pure layer = the independent checker's) are proved to agree on hole-free terms on the implementation",
-  "level": "PARTIAL on the clauses that need confluence. **Proved: on hole-free terms gram's own conversion check (model of `unify`) agrees with the independent check `convX` whenever both answer, changes nothing, is symmetric, and never panics on well-scoped terms** (C06_unify_layers_agree_fixed, C06_unify_symm, C06_unify_no_panic); `convX` is symmetric and fuel-monotone. Also proved for the model: refl/symm/trans of syntactic equality; conv refl (even for non-normalising terms); shared delta; whnf of a value is the value; synEqS = sameX on hole-free terms with enough fuel; unify of a hole-free term with itself succeeds and changes nothing. Searched on the implementation for every terminating accepted program of ground type: normalize_weak_head(e) equals evaluate(e); unify(e,e), unify(e, value), unify(value, e), unify(e, step^k e) for k = 1..3.",
-  "note": "Trusted: Lean kernel, standard axioms, harness/driver.",
- },
- "C15": {
-  "technique": "Lean model of error.rs::listing (uncoloured) with theorems characterising the lines shown, the line numbers, the line text and the marked columns for every text and range, and exactly when slicing panics; model tied to the code by op `listing` (exhaustive short texts with every range, random multi-line programs); independent line/column oracle on the implementation; diagnostic ranges of parse/scope/order errors compared through hook H3",
-  "level": "Proved for every text, range and whitespace classifier: which lines are shown (exactly those the range intersects, increasing), their 1-based numbers, the row text (source line minus trailing whitespace), the marked columns (range clipped to the trimmed line; from the first non-blank character on continuation lines), totality, the exact panic condition and its absence for token-span ranges. Correspondence on all texts of length <= 4 (<= 5 thorough) over {a, space, LF, é, tab} with every range, and on random CRLF/indented/non-ASCII programs. The ranges of the diagnostics the parser produces are compared with the parser model on every `parse` op. Type-error ranges are observed, not modelled.",
-  "note": "Trusted: Lean kernel, standard axioms, harness/driver; Unicode whitespace supplied by Rust std.",
- },
- "C16": {
-  "technique": "Lean model of the printer (Display, group, annotation) with theorems on which operand positions are parenthesised, `decide` that the atomic set equals the one regenerated from term.rs; model tied to term.rs by op `print` on every (parent position, child former) pair of parser-produced terms, G-prog programs (parsed, elaborated, types) and raw terms with cells; print / re-tokenize / re-parse oracle on the implementation",
-  "level": "PARTIAL on the final step (printed tokens derive the same tree needs parser completeness). Proved: the bare/parenthesised partition equals the regenerated table; group parenthesises exactly the non-atomic formers; every operand position of every operator, application and definition goes through group, the bare positions are exactly the listed ones; printing depends on indices only through the dependent/non-dependent test; resolved cells are transparent; pure and store layers agree. Searched: every parser-produced term is printed, re-read by the real front end and compared structurally (1038 of 1053 position/child pairs occur, the rest are impossible). Known finding KF-print-implicit (`{A} -> B`).",
-  "note": "Trusted: Lean kernel, standard axioms, extractor, harness/driver.",
- },
- "C19": {
-  "technique": "Lean proofs of the evaluation-level facts behind the rewrites (if-true, applied identity, unused definition, named subexpression) and that names never influence shifting, opening, stepping or evaluation; metamorphic search on the implementation: seven rewrite kinds applied at random sites of every generated program, (accepted?, value) compared through the real pipeline",
-  "level": "PARTIAL: acceptance-invariance is proved for the independent checker (the algorithm of the declarative rules), not for gram's own checker with holes; and it is false of the code next to the index of a recursive type family (known finding KF-recfam-loop, reproduced on the real binary by this check). **Proved (typing level): a term the independent checker accepts at T is still accepted at T after `if true then e else e`, after wrapping in an annotated identity (exactly T), after putting an unused definition in front (at a type convertible with T; the first formulation forgot that context offsets must be in range and was refuted), and the checker's answer depends on a term only up to names (whnfX, convX, inferX commute with erasing names); weakening of the independent checker at arbitrary depth.** Proved (evaluation level): `if true then e else e'` steps to e; an applied annotated identity returns its value argument; an unused value definition is dropped; `x = v; x` evaluates to v; every semantic function of the model commutes with erasing names (consistent renaming cannot change a result). Searched: rename, redundant parentheses, unused definition, name a subexpression, identity wrap, if-true wrap, reorder independent function definitions, up to three per program, on every accepted G-prog program; a changed outcome is a violation with both programs as replay.",
-  "note": "Trusted: Lean kernel, standard axioms, the rewrite implementations in harness/src/prog.rs (each is validated on the unchanged tree).",
- },
- "C07": {
-  "technique": "Lean model of the whole packrat parser incl. error recovery and the three re-association passes (zero differences on 1.7M ops); Lean proofs: every token consumed, left association of + - and * / chains of any length, parenthesised chains opaque, passes act on disjoint families; Earley recogniser over grammar.y and the generator's own derivation trees as oracles on the implementation",
-  "level": "PARTIAL (completeness and unambiguity of the grammar are not proved). **Soundness w.r.t. grammar.y is proved**: the productions of grammar.y are regenerated into Lean on every run (Generated/Grammar.lean), and whenever the model parser accepts a token sequence without recording an error, the sequence is derivable from the start symbol in that grammar (C07_parse_sound, C07_accepted_is_sentence: all 36 functions, any length). Also proved for the model: a successful parse consumed all tokens and contains no error node; a right-nested chain of atoms of any length and any mixture of + and - (resp. * and /) is rebuilt left-nested with operators and operands in order; a grouped chain met with a pending accumulator is re-associated on its own (the repaired D8); the sums pass leaves product nodes' shape alone. Two first formulations were refuted by the proof attempt and are kept next to their refutations. Correspondence: op `parse` (resolved term with the source range of every node, or the ranges of the diagnostics in order) on every token sequence up to length 3 (4 thorough) over the full alphabet, every grammar sentence up to 4 (5) tokens, generated programs with token edits, nesting families. Oracles: accepted => sentence of grammar.y with exactly one derivation (Earley); generated sentence => accepted with the generator's tree.",
-  "note": "Trusted: Lean kernel, standard axioms, harness/driver, the Earley recogniser, the renderer of prog.rs.",
- },
- "C08": {
-  "technique": "Lean proof that the model resolver (name->depth map with insert/remove, as the Rust) is sound and complete w.r.t. a binder-stack specification toDB, restores its map, and allocates fresh holes; resolver model tied to parser.rs by op `parse` (indices of every variable); independent reference resolver on the implementation",
-  "level": "Proved for every surface tree, stack and state whose map describes the stack (and does not contain the placeholder, which `parse` guarantees): if the resolver reports no error its output is exactly toDB's (every occurrence gets the index of the innermost binder of that name, groups scope over all annotations, definitions and the body, `_` never binds and is a fresh hole, omitted annotations are holes shifted out of their group); conversely if toDB succeeds the resolver reports nothing; the map is restored; hole ids only grow. Searched on the implementation: the indices in parse()'s output for every generated program against an independent stack resolver, incl. keyword-prefix and non-ASCII names and sibling scopes re-using names; unbound/shadowing perturbations must be rejected.",
-  "note": "Trusted: Lean kernel, standard axioms, the specification toDB, harness/driver.",
- },
-}
+TEXT = {'C11': {'technique': 'Lean 4 proof by mutual structural induction over the term model (all terms, cutoffs, amounts); model tied to de_bruijn.rs / term.rs by '
+                      'a translator of the match arms (tables regenerated every run, interpretation proved equal to the model functions) and by exhaustive '
+                      'small-scope + random differential correspondence; algebraic laws and a named-substitution oracle searched on the implementation',
+         'level': "**The property's first clause is a theorem: on a calculus of named terms (no shadowing, as gram demands) opening the de Bruijn translation "
+                  'is the translation of capture-avoiding substitution (C11_open_is_named_substitution: toDB Γ (b[u/x]) = open (toDB (x::Γ) b) 0 (toDB Γ u) 0, '
+                  'with the weakest freshness hypotheses) and shifting is weakening by a fresh binder at any depth (C11_shift_is_named_weakening).** The ten '
+                  'laws of C11 (shift by zero, additivity, unsigned = signed, down undoes up, failure exactly on unbinding, opening a non-occurring variable = '
+                  'lowering, predicted free variables of shift and open, open-after-lift, list/predicate agreement) are theorems for every term, cutoff, '
+                  "amount and group length, checked by Lean's kernel. They speak about the model. **Translator tie (regenerated on every run):** "
+                  'extract/arms.py reads the Rust match arms themselves and writes them as Lean data (Generated/Arms.lean); for every arm of signed_shift, '
+                  'open and free_variables — one row per Rust variant, nine rows for the nine binary operators the model collapses — which children are '
+                  'traversed, where they are put back and how cutoff / index / shift amount change; C11_shift_arms_tie, C11_open_arms_tie, C11_fv_arms_tie '
+                  'prove that the generic interpretation of these tables IS sshift / openT / freeVars for every term, so a changed Rust arm breaks a theorem, '
+                  'arm by arm (checked against all C11 seeds: each changes its row). The model is also tied to the Rust by running '
+                  'signed_shift/open/free_variables and the model on all hole-free terms up to a size bound with every operator, and on random larger terms. '
+                  'Also proved: commutation of lifting with lifting and with opening, and the substitution lemma (open/open) in its correct form — two first '
+                  'formulations were refuted by the proof attempt and are kept next to their refutations.',
+         'note': 'Trusted: Lean kernel, axioms {propext, Quot.sound, Classical.choice}, the correspondence harness and driver. Congruence arms of '
+                 'signed_shift/open/free_variables: regenerated from source and proved equal to the model; Variable/Unifier arms: modelled by hand, pinned by '
+                 'CRC of their text, tied by correspondence. Trusted: extract/arms.py.'},
+ 'C02': {'technique': 'Lean 4 proof that the model evaluator is sound, complete and deterministic w.r.t. an inductive CBV step relation (fun_induction / rule '
+                      'induction), plus arithmetic/comparison specifications; model tied to evaluator.rs by comparing every intermediate term of every run; '
+                      'reference big-step oracle on the implementation',
+         'level': 'step_sound, step_complete, determinism, irreducibility of values, evaluator-finds-the-prescribed-result, exact arithmetic, truncating '
+                  'division, comparison and conditional laws, evaluation order of applications and of binary operators, first-definition-first for groups, '
+                  'fuel-independence of the result and the fixed-point law of a recursive definition are kernel-checked theorems about the model for all terms '
+                  'and all integers. Translator tie (regenerated on every run): the primitive of each of the nine binary arms of evaluator.rs::step (operator, '
+                  "operand order, which boolean the `if` yields, checked_div) is read off the source and proved to compute the model's delta for all operands "
+                  '(C02_step_prims_tie); the order of sub-steps/value tests and the two congruence nodes of each arm are checked against the one shape the '
+                  'model implements (C02_step_shape_tie). The tie to the rest of evaluator.rs is differential: all closed arithmetic/conditional terms to '
+                  'depth 2 over boundary operands (0, ±1, ±2^64, ±10^40 ...), samples at depth 3, recursive and mutually recursive groups, random raw terms, '
+                  'each compared step by step.',
+         'note': 'Trusted: Lean kernel, the three standard axioms, harness and driver. Modelled, not verified: evaluator.rs, de_bruijn.rs. Not modelled: the '
+                 '16 MiB stack.'},
+ 'C09': {'technique': 'Lean 4 proof over a tokenizer model parametric in the Unicode classifier (invariants of the scanning loop by induction on fuel; keyword '
+                      'table regenerated from source and decided); tied to tokenizer.rs by exhaustive short strings over a class-representative alphabet + '
+                      'random Unicode texts; the partition predicate searched on the implementation',
+         'level': 'Kernel-checked for every text and every classifier: failures list at least one symbol, the keyword table is a bijection of whole words, '
+                  'literal values are positional in unbounded Nat; ranges are ordered, disjoint, non-empty and inside the text; the tokenizer is total (its '
+                  "panic arm is dead); a word is a keyword iff it equals the keyword; every token's range contains exactly its lexeme; **maximal munch** (an "
+                  'identifier or number token is never followed directly by a character that would continue it); **everything between tokens is blank or '
+                  'comment** (every text position is inside a token, a blank, a comment or a line break that the filter dropped); **no token starts inside a '
+                  'comment** (for a classifier under which `#` is not a word character; the unrestricted first formulation is refuted and kept next to its '
+                  'refutation); **the reported errors are exactly the unexpected symbols**, in order. The model is tied to the code by op `tok` (token kinds, '
+                  "payloads, byte ranges, error ranges). The full partition predicate of C09 is evaluated on the implementation's output for every generated "
+                  'text.',
+         'note': 'Trusted: Lean kernel, standard axioms, harness/driver, the extractor (extract/extract.py). External, assumed: Rust std Unicode tables, '
+                 'unicode-segmentation, num-bigint decimal parsing (exercised by correspondence).'},
+ 'C10': {'technique': 'Lean 4 proof of local scanner laws (comment = its line ending, blanks skipped, line break yields a terminator iff the regenerated '
+                      'can-end table says so) and `decide` over the two line-break tables regenerated from tokenizer.rs; the full render/tokenize law proved '
+                      'for the model (induction over the lexeme list with a scanner invariant) and searched on the implementation over random token sequences '
+                      'and layouts; at parser level (line break interchangeable with `;`) the model parser, which does not look at the kind of a terminator, '
+                      'is compared with the implementation on programs whose separators are respelled, and the respellings must fare alike',
+         'level': 'Kernel-checked: a comment is skipped up to and not including its line feed (also at end of file), table obligations over all 29 token '
+                  'shapes (operators/opening brackets cannot end, binary operators/closing brackets cannot start, `;` does both, line-break terminator never '
+                  'ends), payload independence; in the scanner a comment behaves exactly like its line ending, blanks are skipped without effect, a line break '
+                  'yields a terminator iff the can-end table says so, never two in a row, none leading or trailing. **The unbounded render/tokenize law is a '
+                  'theorem** (C10_render_law: for every sane classifier, every text that is a leading gap, lexemes each followed by a gap of blanks / `#` '
+                  'comments / line feeds, and an optional final comment, tokenizes without error or panic, and its token kinds are the lexeme kinds with a '
+                  'line-break terminator exactly between a lexeme that can end and one that can start an expression whose gap contains a line break), with the '
+                  'corollaries C10_layout_irrelevant (spaces, tabs, comments, repeated line breaks never change the token stream), C10_break_after_cannot_end, '
+                  'C10_break_before_cannot_start, C10_linebreak_is_separator and the scanner-level form C10_render_scan. The law is also evaluated on the '
+                  'implementation for random token lists with every gap filled by spaces, tabs, CR, NBSP, comments (empty, multi-byte, at EOF) and line '
+                  'breaks.',
+         'note': 'Trusted: as C09. The tables are regenerated from the source on every run, so a moved variant re-decides the obligations.'},
+ 'C01': {'technique': 'Lean 4 proof of the stuck-term classification (sound and complete w.r.t. the model evaluator) and kernel-evaluated negation witnesses '
+                      'on the model type checker; checker and evaluator models tied to type_checker.rs/unifier.rs/normalizer.rs/evaluator.rs by differential '
+                      'correspondence on every small sentence of grammar.y and on type-directed generated programs; progress searched per program on the '
+                      'implementation',
+         'level': 'PARTIAL. The full progress statement is false of the code (known findings KF-order, KF-holecopy, KF-barehole; one more defect, nested '
+                  'groups not order-checked, was repaired). Proved for all terms: a term that neither steps nor is a value is stuck for exactly one classified '
+                  'reason, values are never stuck; proved by kernel evaluation: the model checker accepts the KF-order and KF-barehole witnesses and their '
+                  "evaluation is stuck. Also proved: **one-step progress for the independent checker's type system** — a hole-free term accepted by inferX (in "
+                  'any context) that neither steps nor is a value is stuck at a variable in evaluation position or at a division by zero, never for a kind '
+                  'reason. **Proved with the confluence development: progress and canonical forms for the declarative rules** (C01_declarative_progress: a '
+                  'closed term well typed under Typing.lean is a value, steps, or is stuck at a not-yet-available definition or a division by zero) and **type '
+                  'soundness of the checker model on the group-free fragment** (C01_checker_sound_run_nolet: a fully annotated program without definition '
+                  "groups that the model of gram's checker accepts is, after any number of evaluation steps, a value or can step or divides by zero -- never "
+                  'stuck for a kind reason, not even at a variable). Subject reduction w.r.t. the declarative rules is *refuted* for multi-definition groups '
+                  '(C04_preservation_refuted: an intermediate term of a run that is perfectly fine has no type) and proved with the side condition that names '
+                  'the problem (C04_preservation_fixed), so the statement for programs with groups (C01_checker_sound_run_stmt) stays open; it is decided per '
+                  'program: every E-small sentence (<= 5 tokens quick, <= 6 thorough) and every G-prog program accepted by the real front end is evaluated by '
+                  "the real evaluator and a stuck final term other than a division by zero is a violation unless it matches a recorded finding's signature.",
+         'note': 'Trusted: Lean kernel, standard axioms, harness/driver. Modelled, not verified: type_checker.rs, unifier.rs, normalizer.rs, evaluator.rs, '
+                 'de_bruijn.rs (store layer). Hook H2 (feature verif-hooks) attributes hits to KF-holecopy.'},
+ 'C05': {'technique': 'Lean 4 proof that the checker model never wrongly rejects a fully annotated program the independent checker accepts (confluence of '
+                      'conversion on erased terms, transfer of positive conversion verdicts between convertible forms, the group rule), a refutation of '
+                      'unconditional completeness with a witness replayed on the real binary; Lean 4 proof (induction on fuel over the monadic checker model) '
+                      'that elaboration returns the input term unchanged, that the hole store only grows and that diagnostics are never dropped; '
+                      'kernel-evaluated witness of the repaired group rule; completeness searched with a type-directed program generator that knows each '
+                      "program's type",
+         'level': 'PARTIAL: the full statement is false of the code on programs whose types have no weak head normal form (known finding KF-divergent-type; '
+                  "kernel-checked witness C05_loop_witness: the independent checker accepts, the model of gram's checker runs out of fuel at every fuel, and "
+                  'the real binary overflows its stack). **Proved for the model (C05_checker_no_wrong_rejection, via a 4000-line confluence proof for '
+                  "conversion): for a closed, fully annotated program without implicit binders that the independent checker accepts, gram's checker, at every "
+                  "fuel, either runs out of fuel or accepts it with no diagnostic and a hole-free type convertible with the independent checker's; so a fully "
+                  'annotated well-typed program is never wrongly rejected, it can only fail to terminate**; C05_checker_complete_holefree_fixed is the '
+                  'fuel-existential form. (Implicit functions cannot be applied at all in gram -- `({a : type} => a) int` is rejected; the language gives them '
+                  'no elimination form, so they are excluded by hypothesis, C05_implicit_witness.) Also proved: elaboration identity (nothing rewritten, '
+                  'reordered, duplicated or dropped), store/diagnostic monotonicity, the repaired group-type rule on the former stack-overflow witness. '
+                  'Acceptance of every fully annotated well-typed program is not proved; it is decided per program: G-prog generates fully annotated programs '
+                  '(polymorphic, higher-order, dependent, recursive groups, type aliases, type-level computation) together with their expected type, and the '
+                  'real checker must accept each with a type that unifies with the expected one; the elaborated term must be pointer-structurally the parsed '
+                  'term.',
+         'note': "Trusted: Lean kernel, standard axioms, harness/driver, the generator's own typing discipline (prog.rs). Modelled, not verified: "
+                 'type_checker.rs, unifier.rs, normalizer.rs, de_bruijn.rs.'},
+ 'C12': {'technique': 'Lean 4 proof of store monotonicity, unreachability of the let-panic arm and occurs-check guarding for the unifier model; model tied to '
+                      'unifier.rs/normalizer.rs/equality.rs by ops comparing verdict, store afterwards and context afterwards; scope/acyclicity/re-unification '
+                      'oracles on the implementation over hole-punched terms',
+         'level': 'PARTIAL for terms on which the two recorded hole defects strike; otherwise PROVED for the model. **Soundness of unification '
+                  '(C12_unify_sound_fixed, 2100 lines): if `unify` answers true, allocated no cell (no hole-copy event, hook H2) and every hole sits at least '
+                  'as deep as its shift says (no event of hook H4), then the two sides zonked with the final store are convertible under the declarative '
+                  'rules.** The unrestricted statement is refuted three ways, two of them real defects of the Rust unifier (kernel-evaluated witnesses; the '
+                  'gram programs are in corpus/d19*.g), the third a flaw of my first formulation (the algorithmic check can diverge where the rules hold). '
+                  'Also proved: filled cells never change, whnf never returns a group so the panic arm is dead, every assignment is guarded by the occurs '
+                  "check; **every recorded solution is in scope of its hole** (the solution is the other side lowered by the hole's shift, and lifting it back "
+                  'gives the other side exactly: sshift c (-k) t = some r -> ushift c k r = t); kernel-evaluated occurs-check and scope-escape configurations. '
+                  'Searched on the implementation: G-unify (holes punched at arbitrary positions and binder depths, random definitions contexts with offsets), '
+                  'each success re-unifies, every solution is in scope of its hole and acyclic. **Last clause proved: unifying a hole-free well-scoped term '
+                  'with itself or with any of its reducts never answers false, leaves the store unchanged and never panics (C12_unify_reduct, '
+                  'C12_unify_self_eval; the version without the scoping hypothesis is refuted by a kernel-checked witness).** Translator tie: every structural '
+                  'arm of unifier.rs::unify — each of the nine alternatives of the shared binary-operator arm included — unifies the i-th child with the i-th '
+                  'child of the same variant (C12_unify_pairs_tie, table regenerated from the source on every run).',
+         'note': 'Trusted: Lean kernel, standard axioms, harness/driver. Hook H2 attributes failures caused by hole copies (KF-holecopy).'},
+ 'C18': {'technique': 'Lean 4 proof (Hoare-style triples over the state monad, induction on fuel) that normalisation, unification and type checking leave both '
+                      'contexts exactly as they were on every path; contexts are state in the model and are pushed/popped where the Rust pushes/pops; the '
+                      "implementation's context vectors are fingerprinted before and after every call",
+         'level': "PARTIAL on the 'matches the closed program' clause for gram's own checker with holes; for the independent checker it is proved: **the "
+                  'verdict does not depend on how a context entry is written (C18_rebase_invariant: re-basing entry i from (T, o) to (T lifted by k, o+k) '
+                  'leaves inferX, whnfX and convX unchanged for every term and fuel, errors included), checking a closed one-definition group is checking its '
+                  'parts under the extended contexts (C18_let_wrap), and a lambda likewise (C18_lam_wrap)**. Proved for all terms, stores and contexts: '
+                  'whnf/unify/infer restore typing and definitions contexts, accepted or rejected. On the implementation every type_check / unify / normalize '
+                  'call of the unify, programs and pipeline suites is bracketed by context fingerprints.',
+         'note': 'Trusted: Lean kernel, standard axioms, harness/driver.'},
+ 'C13': {'technique': "Lean 4 proof that sorting makes the visiting order invariant under any permutation of a hash container's elements, plus `decide` that "
+                      'every hash-iteration site extracted from the sources is a sorted one; repeated launches of the real binary with byte comparison',
+         'level': 'Proved: order-independence of the one hash iteration of the code (after the repair of D11), and that the regenerated list of hash-iteration '
+                  'sites contains only sorted ones. Runtime nondeterminism cannot be exhibited by a Lean model; it is searched by launching the real binary 8 '
+                  '(quick) / 50 (thorough) times per file and mode on the corpus and on generated files with several diagnostics.',
+         'note': "Trusted: Lean kernel, standard axioms, the extractor's pattern for hash iteration, OS process semantics."},
+ 'C14': {'technique': 'Lean 4 proofs that the panic arms of the tokenizer and the unifier are dead and that failure lists are non-empty, `decide` that every '
+                      'panic site extracted from the sources is a classified known one, model of the CLI result mapping; in-process stages under catch_unwind '
+                      'and the real binary on byte strings, token soups and corrupted corpus files',
+         'level': 'PARTIAL by nature (stack exhaustion is a recorded finding; a second finding, KF-holedepth, is a panic of the type checker found by the '
+                  'attempt to prove its absence). Proved: **the type checker model never panics on a hole-free program** (C14_infer_no_panic_fixed), '
+                  '`unsigned_shift` never panics, a panic of the checker can only be one of the four context lookups and on a well-scoped term only the '
+                  'definitions-context indexing of normalize_weak_head (C14_infer_one_live_site), with two kernel-evaluated witnesses that this one is live '
+                  '(the Rust binary panics on both); tokenizer total; unifier let-panic dead; **the model parser terminates** (fuel 36(n+1)+1 always suffices: '
+                  'no left recursion, by a rank/position measure over the 36 functions); **the model front end never panics** (a tree without recorded errors '
+                  'contains no ParseError node — the confident-flag invariant —, so re-association and resolution never meet one; the definition-order check '
+                  'neither panics nor runs out of fuel) and rejects only with a non-empty diagnostic list; CLI contract of the result mapping; panic-site list '
+                  'covered. Searched: every in-process stage call of the lexer/parser/pipeline suites runs under catch_unwind; the real binary is run on all '
+                  'byte strings up to length 2 (sample of length 3 in quick, all in thorough) over a 40-element alphabet including invalid UTF-8, on token '
+                  'soups and on truncated/corrupted corpus files, and must respect the exit/stdout/stderr contract.',
+         'note': 'Trusted: Lean kernel, standard axioms, extractor, harness.'},
+ 'C17': {'technique': '`decide` over the shape of the 36 packrat functions and fingerprints of the caching macros regenerated from parser.rs; memo-table model '
+                      "whose per-nonterminal hit/miss counters are compared with the implementation's (hook H1); wall-clock scaling measured on the real code "
+                      'for 25 input families',
+         'level': 'PARTIAL by nature (a theorem cannot bound wall-clock time). Decided by the kernel on every run: every parse function starts with '
+                  'cache_check! under its own nonterminal and leaves only through the caching macros; one function per nonterminal; macros and cache type '
+                  "unchanged. Correspondence: the model parser (explicit memo table) reproduces the implementation's per-nonterminal cache hits and misses "
+                  'exactly on every `parsestats` op. Proved for the model: a miss runs the body once and inserts its key, a hit runs nothing, the cache only '
+                  'grows, **total misses <= 36(n+1)** and **total calls (hits + misses) <= 361(n+1)** for every token sequence (no body calls a parse function '
+                  'in a loop; the largest body makes 9 calls), together with termination: the packrat phase does linear work; the same bound is checked on the '
+                  "implementation's counters for every family. Measured: tokenize+parse time for nested/unclosed/mis-closed parentheses, "
+                  'operator/application/definition/conditional/lambda/arrow/negation/comparison chains, long-and-nested inputs, shared dependency graphs, at n '
+                  '= 250..2000 (4000 thorough); a local growth exponent above 4.5, a run above 30 s or a sweep that does not finish is a violation with family '
+                  'and n as replay.',
+         'note': 'Trusted: Lean kernel, extractor, harness timing. Not modelled: the machine.'},
+ 'C03': {'technique': 'independent explicit checker inferX written in Lean (normalise-and-compare conversion, no unification variables), run by the compiled '
+                      'driver on the zonked elaboration of every program the real checker accepts (translation validation); Lean proofs about inferX (scoping, '
+                      "constants, rejection of ill-kinded arithmetic) and a kernel-evaluated negation witness; model of gram's checker tied to the code by op "
+                      '`infer`',
+         'level': 'PARTIAL for programs with holes, PROVED for the model on fully annotated programs. The full statement is false of the code (known findings '
+                  'KF-holecopy and KF-holedepth; one more defect, untyped annotations, was repaired). **Proved (C03_checker_sound_holefree): if the model of '
+                  "gram's checker accepts a closed hole-free program without error, the zonked elaboration has the zonked reported type under the declarative "
+                  "rules of Typing.lean** (1900 lines; the three shapes of `unify` calls the checker makes, the group rule's unfolded type convertible with "
+                  'the declarative one); the elaboration of a hole-free program is the program. Also proved: the independent checker only accepts well-scoped '
+                  "hole-free terms, types constants exactly, rejects arithmetic on booleans; by kernel evaluation the model of gram's checker accepts `((f : "
+                  'int -> _) => f 1 + 1) ((x : int) => true)` while the independent checker rejects its elaboration. Decided per program: every E-small '
+                  'sentence and every G-prog program (incl. their single-point ill-typed perturbations) accepted by the real checker must be accepted by '
+                  'inferX at the reported type. **The independent checker is proved sound for the declarative typing rules** (`Typing.lean`: head reduction, '
+                  'convertibility as the least congruence-equivalence containing it, a pure type system with type:type, groups and a conversion rule): `whnfX` '
+                  'only rewrites to convertible terms, a positive `convX` on hole-free terms is a derivation of convertibility, `inferX ... = ok T` implies '
+                  '`HasType Γ Δ t T`, `oracleAccepts e ty = ok true` implies `HasType [] [] e ty`; and its verdicts do not depend on the fuel (fuel '
+                  'monotonicity of whnfX/convX/inferX/oracleAccepts). Translator tie: every binary-operator arm of type_check_rec infers each operand, unifies '
+                  'ITS type with int (error at that operand), rebuilds the same operator and returns int / bool as the model does (C03_check_shape_tie, table '
+                  'regenerated from type_checker.rs on every run).',
+         'note': 'Trusted: Lean kernel, standard axioms, harness/driver, the declarative rules (Typing.lean, 130 lines; the oracle Oracle.lean is proved sound '
+                 'for them on hole-free terms). Hook H2 attributes rejections caused by hole copies.'},
+ 'C04': {'technique': 'Lean proofs of subject reduction (group-free fragment; refuted in general, with the corrected statement), of canonical forms from '
+                      'consistency of conversion (confluence), and of `the value inhabits the reported type` for the checker model on the group-free fragment; '
+                      'Lean proofs of the shape of the type of a value and canonical forms for the independent checker; the value of every terminating '
+                      'accepted program typed by inferX and compared with the reported type (translation validation), plus a direct shape test on the '
+                      'implementation',
+         'level': 'PARTIAL: proved for the model on the group-free fragment, decided per program beyond it. **Proved: C04_value_inhabits_type_nolet -- if the '
+                  "model of gram's checker accepts a closed fully annotated group-free program at (zonked) type T and running it reaches a value v, then v has "
+                  'type T under the declarative rules, and if T is convertible with int (bool) then v is an integer literal (true/false)**; subject reduction '
+                  'for the group-free fragment in arbitrary contexts (C04_preservation_nolet) and, with an explicit side condition on group unfolding, in '
+                  'general (C04_preservation_fixed; the unconditional statement is refuted by a three-line program whose intermediate term is untypable, '
+                  'C04_preservation_refuted -- a limit of the declarative specification, not a defect of gram: the program runs fine); canonical forms under '
+                  'the declarative rules from consistency of conversion (C04_canonical_forms_declarative). Also proved: the type inferX assigns to a value is '
+                  "determined by the value's shape; canonical forms (a value of type int is a literal, of type bool is true/false, of a function type is a "
+                  'function); values are normal. Decided per program: value and reported type of every terminating accepted E-small / G-prog program go to the '
+                  "independent checker; on the implementation the weak-head normal form of the reported type must match the value's kind.",
+         'note': 'Trusted: as C03.'},
+ 'C06': {'technique': 'Lean proofs that syntactic equality is an equivalence, conversion is reflexive at any fuel, normalizer and evaluator share the delta '
+                      'rules, values are whnf fixed points, the store-layer syntactically_equal coincides with the pure one on hole-free terms, unify(t,t) '
+                      'succeeds; agreement normalizer/evaluator, unify(t, reduct), symmetry searched per program; the two normalizers (store layer = model of '
+                      "normalize_weak_head, pure layer = the independent checker's) are proved to agree on hole-free terms on the implementation",
+         'level': 'The clauses that need confluence are now theorems (Lemmas/ConvCoherence.lean): **C06_eval_whnf_agree / C06_eval_whnfS_agree — if running a '
+                  "hole-free term yields a literal or boolean and the checker's normalizer (independent model whnfX, and the model whnfS of "
+                  'normalize_weak_head) answers, it answers the same literal; C06_conv_reduct — a term is never judged different from a term it reduces to; '
+                  'C06_conv_complete / C06_conv_decides — on hole-free terms the judgement, whenever it answers, answers true exactly when the terms are '
+                  'convertible, i.e. have a common reduct up to names and annotations (C06_conv_iff_join); C06_step_conv — every evaluation step is a '
+                  'conversion.** The converse direction (normal form ⇒ run result) is refuted for stuck programs (`((x : int) => 3) (1 / 0)`, call-by-name vs '
+                  'call-by-value) and proved when the run ends in a value. Translator tie: the primitive of every binary arm of normalize_weak_head equals '
+                  "delta and equals the evaluator's (C06_whnf_prims_tie); every structural arm of syntactically_equal relates like with like "
+                  "(C06_syneq_pairs_tie). Still per program only: termination. **Proved: on hole-free terms gram's own conversion check (model of `unify`) "
+                  'agrees with the independent check `convX` whenever both answer, changes nothing, is symmetric, and never panics on well-scoped terms** '
+                  '(C06_unify_layers_agree_fixed, C06_unify_symm, C06_unify_no_panic); `convX` is symmetric and fuel-monotone. Also proved for the model: '
+                  'refl/symm/trans of syntactic equality; conv refl (even for non-normalising terms); shared delta; whnf of a value is the value; synEqS = '
+                  'sameX on hole-free terms with enough fuel; unify of a hole-free term with itself succeeds and changes nothing. Searched on the '
+                  'implementation for every terminating accepted program of ground type: normalize_weak_head(e) equals evaluate(e); unify(e,e), unify(e, '
+                  'value), unify(value, e), unify(e, step^k e) for k = 1..3.',
+         'note': 'Trusted: Lean kernel, standard axioms, harness/driver.'},
+ 'C15': {'technique': 'Lean model of error.rs::listing (uncoloured) with theorems characterising the lines shown, the line numbers, the line text and the '
+                      "marked columns for every text and range, and exactly when slicing panics; Lean proof that every node of the parser model's output spans "
+                      'exactly its tokens (refinement of the grammar-soundness invariant carrying the tree); model tied to the code by op `listing` '
+                      '(exhaustive short texts with every range, random multi-line programs); independent line/column oracle on the implementation; diagnostic '
+                      'ranges of parse/scope/order errors compared through hook H3',
+         'level': 'Proved for every text, range and whitespace classifier: which lines are shown (exactly those the range intersects, increasing), their '
+                  '1-based numbers, the row text (source line minus trailing whitespace), the marked columns (range clipped to the trimmed line; from the '
+                  'first non-blank character on continuation lines), totality, the exact panic condition and its absence for token-span ranges. Correspondence '
+                  'on all texts of length <= 4 (<= 5 thorough) over {a, space, LF, é, tab} with every range, and on random CRLF/indented/non-ASCII programs. '
+                  'The ranges of the diagnostics the parser produces are compared with the parser model on every `parse` op. **Span exactness is a theorem for '
+                  'all 36 parse functions** (C15_span_exact, C15_tree_spanned, C15_root_range, C15_ranges_nested, C15_memo_transparent): whenever the model '
+                  "parser returns a tree without recorded error, every node's range runs from the start of its first token to the end of its last token "
+                  "(parentheses included for a group, binder variables carry exactly their identifier token's range), children lie inside their parent, "
+                  'siblings are disjoint and in source order — before re-association (after it: known finding KF-range-paren-chain). Type-error ranges are '
+                  'observed, not modelled.',
+         'note': 'Trusted: Lean kernel, standard axioms, harness/driver; Unicode whitespace supplied by Rust std.'},
+ 'C16': {'technique': 'Lean model of the printer (Display, group, annotation) with theorems on which operand positions are parenthesised, `decide` that the '
+                      'atomic set equals the one regenerated from term.rs; model tied to term.rs by op `print` on every (parent position, child former) pair '
+                      'of parser-produced terms, G-prog programs (parsed, elaborated, types) and raw terms with cells; print / re-tokenize / re-parse oracle '
+                      'on the implementation',
+         'level': 'PARTIAL on the final step (printed tokens derive the same tree needs parser completeness). Proved: the bare/parenthesised partition equals '
+                  'the regenerated table; group parenthesises exactly the non-atomic formers; every operand position of every operator, application and '
+                  'definition goes through group, the bare positions are exactly the listed ones; printing depends on indices only through the '
+                  'dependent/non-dependent test; resolved cells are transparent; pure and store layers agree. Searched: every parser-produced term is printed, '
+                  're-read by the real front end and compared structurally (1038 of 1053 position/child pairs occur, the rest are impossible). Known finding '
+                  'KF-print-implicit (`{A} -> B`).',
+         'note': 'Trusted: Lean kernel, standard axioms, extractor, harness/driver.'},
+ 'C19': {'technique': 'Lean proofs of the evaluation-level facts behind the rewrites (if-true, applied identity, unused definition, named subexpression) and '
+                      'that names never influence shifting, opening, stepping or evaluation; metamorphic search on the implementation: seven rewrite kinds '
+                      'applied at random sites of every generated program, (accepted?, value) compared through the real pipeline',
+         'level': "PARTIAL: acceptance-invariance is proved for the independent checker (the algorithm of the declarative rules), not for gram's own checker "
+                  'with holes; and it is false of the code next to the index of a recursive type family (known finding KF-recfam-loop, reproduced on the real '
+                  'binary by this check). **Proved (typing level): a term the independent checker accepts at T is still accepted at T after `if true then e '
+                  'else e`, after wrapping in an annotated identity (exactly T), after putting an unused definition in front (at a type convertible with T; '
+                  "the first formulation forgot that context offsets must be in range and was refuted), and the checker's answer depends on a term only up to "
+                  'names (whnfX, convX, inferX commute with erasing names); weakening of the independent checker at arbitrary depth.** Proved (evaluation '
+                  "level): `if true then e else e'` steps to e; an applied annotated identity returns its value argument; an unused value definition is "
+                  'dropped; `x = v; x` evaluates to v; every semantic function of the model commutes with erasing names (consistent renaming cannot change a '
+                  'result). Searched: rename, redundant parentheses, unused definition, name a subexpression, identity wrap, if-true wrap, reorder independent '
+                  'function definitions, up to three per program, on every accepted G-prog program; a changed outcome is a violation with both programs as '
+                  'replay.',
+         'note': 'Trusted: Lean kernel, standard axioms, the rewrite implementations in harness/src/prog.rs (each is validated on the unchanged tree).'},
+ 'C07': {'technique': 'Lean model of the whole packrat parser incl. error recovery and the three re-association passes (zero differences on 1.7M ops); Lean '
+                      'proofs: every token consumed, left association of + - and * / chains of any length, parenthesised chains opaque, passes act on disjoint '
+                      "families; Earley recogniser over grammar.y and the generator's own derivation trees as oracles on the implementation",
+         'level': 'PARTIAL (completeness and unambiguity of the grammar are not proved). **Soundness w.r.t. grammar.y is proved**: the productions of '
+                  'grammar.y are regenerated into Lean on every run (Generated/Grammar.lean), and whenever the model parser accepts a token sequence without '
+                  'recording an error, the sequence is derivable from the start symbol in that grammar (C07_parse_sound, C07_accepted_is_sentence: all 36 '
+                  'functions, any length). Also proved for the model: a successful parse consumed all tokens and contains no error node; a right-nested chain '
+                  'of atoms of any length and any mixture of + and - (resp. * and /) is rebuilt left-nested with operators and operands in order; a grouped '
+                  "chain met with a pending accumulator is re-associated on its own (the repaired D8); the sums pass leaves product nodes' shape alone. Two "
+                  'first formulations were refuted by the proof attempt and are kept next to their refutations. Correspondence: op `parse` (resolved term with '
+                  'the source range of every node, or the ranges of the diagnostics in order) on every token sequence up to length 3 (4 thorough) over the '
+                  'full alphabet, every grammar sentence up to 4 (5) tokens, generated programs with token edits, nesting families. Oracles: accepted => '
+                  "sentence of grammar.y with exactly one derivation (Earley); generated sentence => accepted with the generator's tree.",
+         'note': 'Trusted: Lean kernel, standard axioms, harness/driver, the Earley recogniser, the renderer of prog.rs.'},
+ 'C08': {'technique': 'Lean proof that the model resolver (name->depth map with insert/remove, as the Rust) is sound and complete w.r.t. a binder-stack '
+                      'specification toDB, restores its map, and allocates fresh holes; resolver model tied to parser.rs by op `parse` (indices of every '
+                      'variable); independent reference resolver on the implementation',
+         'level': 'Proved for every surface tree, stack and state whose map describes the stack (and does not contain the placeholder, which `parse` '
+                  "guarantees): if the resolver reports no error its output is exactly toDB's (every occurrence gets the index of the innermost binder of that "
+                  'name, groups scope over all annotations, definitions and the body, `_` never binds and is a fresh hole, omitted annotations are holes '
+                  'shifted out of their group); conversely if toDB succeeds the resolver reports nothing; the map is restored; hole ids only grow. Searched on '
+                  "the implementation: the indices in parse()'s output for every generated program against an independent stack resolver, incl. keyword-prefix "
+                  'and non-ASCII names and sibling scopes re-using names; unbound/shadowing perturbations must be rejected.',
+         'note': 'Trusted: Lean kernel, standard axioms, the specification toDB, harness/driver.'}}
+
